@@ -426,8 +426,21 @@ func inferAll(P *Program, U *Universe, fns []*ssa.Function, dir string, seed int
 			}
 		}
 		if len(obs) > 0 {
+			// candidates that are themselves quantified cannot be judged by the
+			// quantifier-free abstraction: they go to the full solver
+			var plain, quant []*Oblig
+			for _, o := range obs {
+				if strings.Contains(o.Goal.S, "(forall ") || strings.Contains(o.Goal.S, "(exists ") {
+					quant = append(quant, o)
+				} else {
+					plain = append(plain, o)
+				}
+			}
+			if len(quant) > 0 {
+				solveAll(quant, dir+"-q", 5, 16, seed, []int{0, 1}, false)
+			}
 			qfSatFinal = os.Getenv("GOVC_HOUDINI_FULL") == ""
-			solveAll(obs, dir, 2, 16, seed, []int{0}, false)
+			solveAll(plain, dir, 2, 16, seed, []int{0}, false)
 			// a candidate that was neither proved nor refuted (solver gave up
 			// under the short budget) gets a second, longer attempt on all
 			// solvers before it is dropped: which invariants are kept must not
